@@ -419,6 +419,8 @@ class Interp:
             self.consumed.add(e[1])
             key = self.mem_key(e[1])
             if key not in self.reads:
+                if "__default0__" in self.reads:
+                    return Sig(self.mems[key], self.d.const(0))
                 raise RefError(f"no read value supplied for {key}")
             return Sig(self.mems[key], self.reads[key])
         if k == "bundle":
